@@ -3,6 +3,13 @@
 import json, subprocess, sys, os, time, glob
 V = "/verif"
 only = sys.argv[1:]
+# the seeded changes are applied to a scratch worktree of /repo (never to /repo itself) and the checks are
+# pointed at it with EVYVC_REPO; outputs go to a scratch directory
+R = "/tmp/repo-seed"
+OUT = "/tmp/seed-out"
+subprocess.run(["git", "-C", "/repo", "worktree", "remove", "--force", R], capture_output=True)
+subprocess.run(["git", "-C", "/repo", "worktree", "add", "--detach", R, "HEAD"], capture_output=True, check=True)
+env = dict(os.environ, EVYVC_REPO=R, EVYVC_OUT=OUT)
 rows = []
 for d in sorted(glob.glob(f"{V}/seeded/*/")):
     sid = os.path.basename(d.rstrip("/"))
@@ -10,22 +17,24 @@ for d in sorted(glob.glob(f"{V}/seeded/*/")):
         continue
     meta = json.load(open(d + "meta.json"))
     props = [meta["property"]] + meta.get("also_check", [])
-    st = subprocess.run(["git", "-C", "/repo", "status", "--short"], capture_output=True, text=True).stdout
+    st = subprocess.run(["git", "-C", R, "status", "--short"], capture_output=True, text=True).stdout
     if st.strip():
         print("ERROR: /repo dirty before applying", sid, st); sys.exit(2)
-    a = subprocess.run(["git", "-C", "/repo", "apply", d + "patch.diff"], capture_output=True, text=True)
+    a = subprocess.run(["git", "-C", R, "apply", d + "patch.diff"], capture_output=True, text=True)
     if a.returncode != 0:
         print(sid, "PATCH DOES NOT APPLY", a.stderr[:200]); continue
     try:
         det = []
         for p in props:
             t0 = time.time()
-            r = subprocess.run([f"{V}/bin/evyvc", "check", "--prop", p], cwd=V, capture_output=True, text=True)
+            r = subprocess.run([f"{V}/bin/evyvc", "check", "--prop", p], cwd=V, capture_output=True, text=True, env=env)
             fails = [l.split(" [")[0].replace("failed obligation: ", "") for l in r.stdout.splitlines() if l.startswith("failed obligation")]
             ok = r.returncode == 1 and "VIOLATION" in r.stdout
             det.append((p, ok, fails[:4], round(time.time() - t0)))
             print(f"{sid} {p}: {'DETECTED' if ok else 'MISSED exit=%d' % r.returncode} {round(time.time()-t0)}s {fails[:4]}", flush=True)
         rows.append((sid, det))
     finally:
-        subprocess.run(["git", "-C", "/repo", "checkout", "--", "."])
-json.dump(rows, open(f"{V}/work/seed_results.json", "w"), indent=1)
+        subprocess.run(["git", "-C", R, "checkout", "--", "."])
+os.makedirs(f"{V}/work", exist_ok=True)
+json.dump(rows, open(f"{V}/work/seed_results_{'_'.join(only) or 'all'}.json", "w"), indent=1)
+subprocess.run(["git", "-C", "/repo", "worktree", "remove", "--force", R], capture_output=True)
